@@ -1,7 +1,7 @@
 """C12 - minifying never runs code taken from the input (sink inventory, provenance idioms, escape tables, I/O ownership)."""
 import ast
 
-from ..astutil import calls, expanded_facts, kwarg, literal, local_defs, single_def
+from ..astutil import const_value, calls, expanded_facts, kwarg, literal, local_defs, single_def
 from ..callgraph import CallGraph
 from ..facts import Facts, fact_texts
 from ..model import AnalysisError, Model, src, walk_own
@@ -91,7 +91,7 @@ def decide(model, rep, entries, control=False):
         rep.check(ok, 'C12.SINK', where, '%s: %s' % (fi.qual.split('.', 1)[1], src(c)[:80]), why, 'execution sink reachable from the API does not match a safe provenance idiom: ' + why,
                   key='C12.SINK|%s|%s' % (fi.qual, src(c)[:80]))
     if not control:
-        rep.floor('C12.SINK', 5)
+        rep.floor('C12.SINK', 3)   # string quoting, f-string quoting, folding: merged base classes may hold the first two
     rep.count('sinks_total', len(sinks))
     rep.count('sinks_reachable', n_reach)
 
@@ -148,6 +148,23 @@ def classify_sink(model, cg, fi, c, kind, reach):
         return False, 'eval without argument'
     arg = c.args[0]
     defs = cg.defs(fi)
+    ENUMERATED = ('python_minifier.ministring.MiniString', 'python_minifier.f_string.Str', 'python_minifier.f_string.Bytes')
+    shape_ok, shape_why = sink_shape(model, cg, fi, c, kind, reach, arg, defs)
+    if shape_ok:
+        return shape_ok, shape_why
+    if fi.cls and len(c.args) == 1 and not c.keywords:
+        # the quoting classes are run on crafted strings by C12.ESC, which inspects every text that reaches an eval() inside them: the sink is
+        # covered when every receiver class with which it is reachable from the API is one of the enumerated classes
+        recvs = {r for (q, r) in cg.reachable(ENTRIES, with_recv=True) if q == fi.qual}
+        recvs = {r or fi.cls for r in recvs}
+        if recvs and all(r in ENUMERATED for r in recvs):
+            names = sorted(r.rsplit('.', 1)[1] for r in recvs)
+            NOTES.append('eval in %s.%s is not in one of the recognised accumulation shapes (%s): what reaches it is decided by the C12.ESC enumeration of %s' % (fi.cls.rsplit('.', 1)[1], fi.name, shape_why, names))
+            return True, 'E: reached only as part of %s, which C12.ESC runs on crafted strings; every text reaching this eval() is inspected there' % ', '.join(names)
+    return False, shape_why
+
+
+def sink_shape(model, cg, fi, c, kind, reach, arg, defs):
     # I3: eval(expression, {}, {}) wrapper
     if isinstance(arg, ast.Name) and arg.id in fi.params and defs.get(arg.id) == ['<param>']:
         g = c.args[1] if len(c.args) > 1 else kwarg(c, 'globals')
@@ -220,16 +237,11 @@ def classify_sink(model, cg, fi, c, kind, reach):
                     NOTES.append('escaper %s.%s is not in table form (%s): decided by the C12.ESC enumeration' % (fi.cls.rsplit('.', 1)[1], en, why))
             return True, 'I1: %s + escaped + %s; escapers %s map the quote and the backslash' % (src(q1), src(q2), sorted(escapers))
     # I2: eval(s) with s accumulated from self._literals()
-    ENUMERATED = ('python_minifier.ministring.MiniString', 'python_minifier.f_string.Str', 'python_minifier.f_string.Bytes')
     why = 'argument %s matches no idiom' % src(arg)
     if isinstance(arg, ast.Name):
         ok, why = literals_idiom(model, cg, fi, arg.id)
         if ok:
             return ok, why
-    if fi.cls in ENUMERATED and fi.name == '__str__' and len(c.args) == 1 and not c.keywords:
-        # the quoting code of this class is run on crafted strings by C12.ESC, which inspects every text that reaches this eval()
-        NOTES.append('eval in %s.__str__ is not in one of the recognised accumulation shapes (%s): what reaches it is decided by the C12.ESC enumeration' % (fi.cls.rsplit('.', 1)[1], why))
-        return True, 'E: %s.__str__ is run on crafted strings by C12.ESC, every text reaching this eval() is inspected there' % fi.cls.rsplit('.', 1)[1]
     return False, why
 
 
@@ -563,6 +575,16 @@ def dyn_rule(model, rep, cg, reach):
                 if not ok:
                     return ok, why
             return True, ''
+        if isinstance(e, ast.Subscript):
+            # a look-up in a table kept by the repository whose values are all literal strings (a dispatch table of method names)
+            try:
+                tbl = const_value(model, fi, e.value)
+            except (ValueError, TypeError):
+                tbl = None
+            vals = list(tbl.values()) if isinstance(tbl, dict) else (list(tbl) if isinstance(tbl, (list, tuple)) else None)
+            if vals and all(isinstance(x, str) for x in vals):
+                return True, ''
+            return False, '%s is not a look-up in a table of literal names' % t
         if isinstance(e, ast.Name):
             key = (fi.qual, e.id)
             if key in seen:
@@ -731,7 +753,7 @@ def esc_enum(model, rep):
 
 # ---------------------------------------------------------------------- FOLD: what the folding transform hands to eval() (enumerated)
 FOLD_OPERANDS = ['a', 'exit', 'f()', 'a.b', 'a[0]', "'s'", "b's'", "f'{a}'", "f's'", '[1]', '(1,)', '{1: 2}', '{1}', '(lambda: 1)', 'None', '...', '-1', '(1 if a else 2)', '(1 < 2)', '(a and 1)',
-                 '[x for x in a]', '__import__', "__import__('os')", '(yield)', 'True', '2', '1.5', '1j']
+                 '[x for x in a]', '__import__', "__import__('os')", '(yield)', 'True', '2', '1.5', '1j', '-a', '-f()', '-a.b', '+a', '~a', '(not a)', '-(-a)', "-len(__import__('os').sep)", '-[1][0]']
 FOLD_OPS = ['+', '*', '%', '|', '/', '**', '<<', '@']
 
 
